@@ -17,9 +17,10 @@ class _Continue(Exception):
 
 
 class Env:
-    def __init__(self, vectors=None, scalars=None, max_steps=10000):
+    def __init__(self, vectors=None, scalars=None, max_steps=10000, resolve=None):
         self.vec = dict(vectors or {})      # name (last component) -> list
         self.var = dict(scalars or {})      # name -> number
+        self.resolve = resolve              # optional: node -> value or None (for members that share a last component)
         self.steps = 0
         self.max_steps = max_steps
 
@@ -50,6 +51,10 @@ def ev(n, env):
             raise Unsupported("literal")
         return v
     if k in ("Ref", "Member"):
+        if env.resolve is not None:
+            v = env.resolve(n)
+            if v is not None:
+                return v
         nm = _name(n)
         if nm in env.var:
             return env.var[nm]
@@ -68,6 +73,11 @@ def ev(n, env):
                 if not (0 <= i < len(v)):
                     raise IndexError("%s[%d]" % (_name(o), i))
                 return v[i]
+        if nm in ("fmod", "floor", "ceil", "fabs", "trunc") and n[4]:
+            import math
+            a = [ev(x, env) for x in n[4]]
+            return {"fmod": lambda: math.fmod(a[0], a[1]), "floor": lambda: float(math.floor(a[0])), "ceil": lambda: float(math.ceil(a[0])),
+                    "fabs": lambda: abs(a[0]), "trunc": lambda: float(math.trunc(a[0]))}[nm]()
         raise Unsupported("call " + str(nm))
     if k == "Index":
         o = T.strip_casts(n[2])
@@ -119,6 +129,10 @@ def ev(n, env):
             return a * b
         if op == "/":
             return (a // b) if isinstance(a, int) and isinstance(b, int) else a / b
+        if op in ("&", "|", "^", "%"):
+            # integer operators: the operands have been converted to an integer type by a cast (stripped here): truncate as C does
+            ia, ib = int(a), int(b)
+            return ia & ib if op == "&" else ia | ib if op == "|" else ia ^ ib if op == "^" else (abs(ia) % abs(ib)) * (1 if ia >= 0 else -1)
         raise Unsupported("binary " + op)
     raise Unsupported(k)
 
